@@ -570,9 +570,10 @@ def check(ctx):
 
     rep.extra["primitives"] = {P.label: {"defined": f"{P.module.relpath}:{P.where}", "bind_sites": len(P.sites), "readers": len(_dedupe(P.readers))}
                                for nm in STATEMENT for P in by_name[nm]}
-    from .c42_extra import slices
+    from .c42_extra import memos, slices
 
     slices(ctx, rep)
+    memos(ctx, rep)
     return rep
 
 
